@@ -194,34 +194,31 @@ def a5(ctx, prog):
     f = prog.fn("mi_heap_queue_first_update")
     # structure of the start-slot search (the loop is modelled, so its shape is checked first); variables are identified by
     # their role (what they are initialised from / how they are stepped), never by name
-    loops = [l for l in f.all(kind="WhileStmt")]
+    counted = {L["loop"] for L in rl.counted_loops(f)}
+    loops = [L["node"] for L in f.loops() if L["node"] not in counted]
     idxs = [dd["d"] for _, dd in rl.var_init_from(f, lambda j: rl.is_call(f, j, "_mi_wsize_from_size"))]
     bins = [dd["d"] for _, dd in rl.var_init_from(f, lambda j: rl.is_call(f, j, "mi_bin"))]
     ok = len(loops) == 1 and len(idxs) == 1 and len(bins) == 1
     pm = {d: "$%d" % k for k, d in enumerate(f.pids)}
     prev_d = None
     if ok:
-        body = [x for x in f.walk(f.nodes[loops[0]]["body"]) if f.nodes[x]["k"] == "UnaryOperator" and f.nodes[x]["op"] in ("post--", "pre--")]
-        ok = len(body) == 1 and rl.var_of(f, f.nodes[body[0]]["c"][0]) is not None
+        inbody = set(f.walk(f.nodes[loops[0]]["body"]))
+        body = [(a, lhs) for a, lhs, kind, opnd in f.updates() if a in inbody and kind == "sub" and opnd == 1]
+        ok = len(body) == 1 and rl.var_of(f, body[0][1]) is not None
     if ok:
-        prev_d = rl.var_of(f, f.nodes[body[0]]["c"][0])
+        prev_d = rl.var_of(f, body[0][1])
         pm[prev_d], pm[idxs[0]], pm[bins[0]] = "#prev", "#idx", "#bin"
         cs = rl.conjuncts(f, f.nodes[loops[0]]["cond"])
         same_bin = [c for c in cs if rl.rel(f, c, True, rl.is_local(f, bins[0]), lambda j: rl.canon(f, j, pm) == "mi_bin(#prev->block_size)") == "=="]
         above0 = [c for c in cs if rl.rel(f, c, True, rl.is_local(f, prev_d), lambda j: rl.canon(f, j, pm).replace(" ", "") == "&$0->pages[0]") == ">"]
         ok = len(cs) == 2 and len(same_bin) == 1 and len(above0) == 1
     ctx.check(R, ok, f.where(), "start-slot search: while (bin == mi_bin(prev->block_size) && prev > &heap->pages[0]) prev--", key="C16.A5:loop")
-    fl = [l for l in f.all(kind="ForStmt")]
-    okf = len(fl) == 1 and len(idxs) == 1
+    fl = [L for L in rl.counted_loops(f) if len(idxs) == 1 and rl.var_of(f, L["bound"]) == idxs[0]]
+    okf = len(fl) == 1 and fl[0]["op"] == "<=" and fl[0]["first"] is not None and rl.var_of(f, fl[0]["first"]) is not None
     sdefs = []
     if okf:
-        init = f.nodes[fl[0]].get("init")
-        ivs = [dd for dd in f.nodes[init]["decls"]] if init is not None and f.nodes[init]["k"] == "DeclStmt" else []
-        okf = len(ivs) == 1 and "init" in ivs[0] and rl.var_of(f, ivs[0]["init"]) is not None and \
-            rl.rel(f, f.nodes[fl[0]]["cond"], True, rl.is_local(f, ivs[0]["d"]), rl.is_local(f, idxs[0])) == "<="
-        if okf:
-            sd = rl.var_of(f, ivs[0]["init"])
-            sdefs = [rl.canon(f, rhs, pm).replace(" ", "") for a, rhs, op in f.var_defs(sd) if rhs is not None]
+        sd = rl.var_of(f, fl[0]["first"])
+        sdefs = [rl.canon(f, rhs, pm).replace(" ", "") for a, rhs, op in f.var_defs(sd) if rhs is not None]
     ctx.check(R, sorted(sdefs) == sorted(["0", "(1+_mi_wsize_from_size(#prev->block_size))", "#idx"]), f.where(), "start ∈ {0, 1 + wsize(prev->block_size), idx}: %s" % sdefs, key="C16.A5:start")
     ctx.check(R, bool(okf), f.where(), "the fill loop covers start..idx inclusive", key="C16.A5:fill")
     U = used_bins(prog, it, T, small)
